@@ -256,3 +256,122 @@ Lemma current_f30_schedule_clean :
   | Some s => (param s 0, verm s 2, pcm s 1, pcm s 2) = (None, Some None, PDone, PBody)
   | None => False end.
 Proof. vm_compute. reflexivity. Qed.
+
+(* ---------------------------------------------------------------- statements in terms of `step` *)
+
+Theorem with_in_coroutine cf s t c k s' :
+  Reach cf s -> trunm s t = Some c -> step cf s (With t k) = Some s' ->
+  lastrm s' t = Some (entry cf (lmapm s c) k) /\ lmapm s' c k = Some (entry cf (lmapm s c) k) /\
+  (forall k', k' <> k -> lmapm s' c k' = lmapm s c k') /\
+  (forall d, d <> c -> lmapm s' d = lmapm s d) /\
+  (forall u, tmapm s' u = tmapm s u) /\
+  ninitm s' c k = ninitm s c k + fresh01 (lmapm s c) k /\
+  (forall d k', (d, k') <> (c, k) -> ninitm s' d k' = ninitm s d k') /\
+  (forall u k', tninitm s' u k' = tninitm s u k').
+Proof. intros R Ht H. exact (access_in_coroutine cf s t c k None s' R Ht H). Qed.
+
+Theorem store_in_coroutine cf s t c k v s' :
+  Reach cf s -> trunm s t = Some c -> step cf s (SetV t k v) = Some s' ->
+  lastrm s' t = Some v /\ lmapm s' c k = Some v /\
+  (forall k', k' <> k -> lmapm s' c k' = lmapm s c k') /\
+  (forall d, d <> c -> lmapm s' d = lmapm s d) /\
+  (forall u, tmapm s' u = tmapm s u) /\
+  ninitm s' c k = ninitm s c k + fresh01 (lmapm s c) k /\
+  (forall d k', (d, k') <> (c, k) -> ninitm s' d k' = ninitm s d k') /\
+  (forall u k', tninitm s' u k' = tninitm s u k').
+Proof. intros R Ht H. exact (access_in_coroutine cf s t c k (Some v) s' R Ht H). Qed.
+
+Theorem with_in_thread cf s t k s' :
+  trunm s t = None -> step cf s (With t k) = Some s' ->
+  lastrm s' t = Some (entry cf (tmapm s t) k) /\ tmapm s' t k = Some (entry cf (tmapm s t) k) /\
+  (forall k', k' <> k -> tmapm s' t k' = tmapm s t k') /\
+  (forall u, u <> t -> tmapm s' u = tmapm s u) /\
+  (forall d, lmapm s' d = lmapm s d) /\
+  tninitm s' t k = tninitm s t k + fresh01 (tmapm s t) k /\
+  (forall d k', ninitm s' d k' = ninitm s d k').
+Proof. intros Ht H. exact (access_in_thread cf s t k None s' Ht H). Qed.
+
+Theorem with_enabled_in_body cf s t c k :
+  Reach cf s -> trunm s t = Some c -> pcm s c = PBody -> exists s', step cf s (With t k) = Some s'.
+Proof. intros R Ht Hp. exact (access_enabled cf s t c k None R Ht Hp). Qed.
+
+(* the code as it is in /repo, any pool capacity *)
+Theorem current_pool_para_none n s g : Reach (current n) s -> In g (pool s) -> param s g = None.
+Proof. apply pool_para_none. reflexivity. Qed.
+Theorem current_free_generator_para_none n s g : Reach (current n) s -> goccm s g = None -> param s g = None.
+Proof. apply free_generator_para_none. reflexivity. Qed.
+Theorem current_body_para_none n s c :
+  Reach (current n) s -> pcm s c = PNew \/ pcm s c = PBody \/ pcm s c = PEnd -> param s (genm s c) = None.
+Proof. apply body_para_none. reflexivity. Qed.
+Theorem current_no_spurious_verdict n s c :
+  Reach (current n) s ->
+  (verm s c = Some (Some ECanceled) -> 1 <= ncanm s c) /\
+  (verm s c = Some (Some ETimeout) -> has_timer (vkindm s c) = true).
+Proof. apply no_spurious_verdict. reflexivity. Qed.
+Theorem current_new_occupant_clean n s c g s' :
+  Reach (current n) s -> step (current n) s (Spawn c g) = Some s' ->
+  genm s' c = g /\ pcm s' c = PNew /\ cbitm s' c = false /\ cdism s' c = 0 /\ ptokm s' c = false /\ panim s' c = false /\
+  ncanm s' c = 0 /\ verm s' c = None /\ alivem s' c = true /\ gldm s' g = Some c /\
+  (forall k, lmapm s' c k = None /\ ninitm s' c k = 0 /\ ndropm s' c k = 0) /\
+  param s' g = None.
+Proof.
+  intros R H. destruct (new_occupant_clean _ _ _ _ _ R H) as (A1 & A2 & A3 & A4 & A5 & A6 & A7 & A8 & A9 & A10 & A11 & A12).
+  repeat split; auto; try apply A11. apply A12. eapply noleak_reach; eauto. reflexivity.
+Qed.
+
+(* ---------------------------------------------------------------- non-vacuity *)
+
+(* two coroutines and a thread use key 7: coroutine 1 stores 42, yields, is resumed on ANOTHER thread and
+   still sees 42; coroutine 2 (run on the thread coroutine 1 used before) and thread 5 see the initial
+   value 800, each after its own run of the initialiser; coroutine 1 ends: its value is dropped once;
+   coroutine 3 on the same generator starts with nothing *)
+Definition ex_storage_schedule : list action :=
+  [Spawn 1 0; Spawn 2 1; Resume 0 1; SetV 0 7 42%Z; Call 1 BYield; Wake 1; Resume 0 2; With 0 7;
+   Resume 1 1; Back 1; After 1; With 1 7; With 5 7;
+   Finish 1; DPut 1 true; DFree 1; Spawn 3 0; Resume 1 3; With 1 7].
+Lemma ex_storage :
+  match run (current 1) (init (current 1)) ex_storage_schedule with
+  | Some s => (lastrm s 0, lastrm s 1, lastrm s 5, lmapm s 2 7, tmapm s 5 7, lmapm s 1 7, genm s 3,
+               (ninitm s 1 7, ndropm s 1 7), (ninitm s 2 7, ndropm s 2 7), (ninitm s 3 7, tninitm s 5 7), pcm s 1)
+              = (Some 800%Z, Some 800%Z, Some 800%Z, Some 800%Z, Some 800%Z, None, 0, (1, 1), (1, 0), (1, 1), PDone)
+  | None => False end.
+Proof. vm_compute. reflexivity. Qed.
+Lemma ex_storage_migrated :
+  match run (current 1) (init (current 1)) (firstn 12 ex_storage_schedule) with
+  | Some s => (lastrm s 1, thrm s 1, lmapm s 1 7, lmapm s 2 7) = (Some 42%Z, 1, Some 42%Z, Some 800%Z)
+  | None => False end.
+Proof. vm_compute. reflexivity. Qed.
+
+(* previous occupants of generator 0: timed out in its last park; cancelled while parked; cancelled exactly
+   when its timer had fired; cancelled while running and then wait_io; panicked.  After each the generator is
+   back in the pool with an empty para, and the last new occupant's park (unparked) returns Ok *)
+Definition prev_timeout (c : nat) : list action :=
+  [Spawn c 0; Resume 0 c; Call c (BPark false true); Timer c; Resume 0 c; Back c; After c; Finish c; DPut c true; DFree c].
+Definition prev_cancel_parked (c : nat) : list action :=
+  [Spawn c 0; Resume 0 c; Call c (BPark false false); Cancel c; Resume 0 c; Back c; Finish c; DPut c true; DFree c].
+Definition prev_cancel_at_timer (c : nat) : list action :=
+  [Spawn c 0; Resume 0 c; Call c (BPark false true); Timer c; Cancel c; Resume 0 c; Back c; Finish c; DPut c true; DFree c].
+Definition prev_waitio (c : nat) : list action :=
+  [Spawn c 0; Resume 0 c; Cancel c; Call c BWaitIo; Back c; After c; Finish c; DPut c true; DFree c].
+Definition prev_panic (c : nat) : list action :=
+  [Spawn c 0; Resume 0 c; Call c BSleep; Timer c; Resume 0 c; Back c; After c; Panic c; Finish c; DPut c true; DFree c].
+Definition new_occupant_parks (c : nat) : list action :=
+  [Spawn c 0; Resume 0 c; Call c (BPark false true); Unpark c; Resume 0 c; Back c; After c].
+Definition ex_hygiene_schedule : list action :=
+  prev_timeout 1 ++ prev_cancel_parked 2 ++ prev_cancel_at_timer 3 ++ prev_waitio 4 ++ prev_panic 5 ++ new_occupant_parks 6.
+Lemma ex_hygiene :
+  match run (current 1) (init (current 1)) ex_hygiene_schedule with
+  | Some s => (verm s 1, (panim s 2, panim s 3, panim s 4, panim s 5), (ncanm s 3, verm s 3), param s 0,
+               (verm s 6, cbitm s 6, ncanm s 6, genm s 6, pcm s 6))
+              = (Some (Some ETimeout), (true, true, false, true), (1, None), None, (Some None, false, 0, 0, PBody))
+  | None => False end.
+Proof. vm_compute. reflexivity. Qed.
+Lemma ex_hygiene_pool_states :
+  forall l, In l [prev_timeout 1; prev_timeout 1 ++ prev_cancel_parked 2;
+                  prev_timeout 1 ++ prev_cancel_parked 2 ++ prev_cancel_at_timer 3;
+                  prev_timeout 1 ++ prev_cancel_parked 2 ++ prev_cancel_at_timer 3 ++ prev_waitio 4;
+                  prev_timeout 1 ++ prev_cancel_parked 2 ++ prev_cancel_at_timer 3 ++ prev_waitio 4 ++ prev_panic 5] ->
+  match run (current 1) (init (current 1)) l with
+  | Some s => (pool s, param s 0) = ([0], None)
+  | None => False end.
+Proof. intros l H. cbn in H. repeat (destruct H as [<-|H]; [vm_compute; reflexivity|]). destruct H. Qed.
